@@ -56,6 +56,31 @@ type elementLeaf struct {
 	spent       bool
 }
 
+// MarshalJSON implements json.Marshaler.
+func (l elementLeaf) MarshalJSON() ([]byte, error) {
+	return json.Marshal(struct {
+		*types.StateElement
+		ElementHash types.Hash256 `json:"elementHash"`
+		Spent       bool          `json:"spent"`
+	}{l.StateElement, l.elementHash, l.spent})
+}
+
+// UnmarshalJSON implements json.Unmarshaler.
+func (l *elementLeaf) UnmarshalJSON(b []byte) error {
+	var v struct {
+		types.StateElement
+		ElementHash types.Hash256 `json:"elementHash"`
+		Spent       bool          `json:"spent"`
+	}
+	if err := json.Unmarshal(b, &v); err != nil {
+		return err
+	}
+	l.StateElement = &v.StateElement
+	l.elementHash = v.ElementHash
+	l.spent = v.Spent
+	return nil
+}
+
 // hash returns the leaf's hash, for direct use in the Merkle tree.
 func (l elementLeaf) hash() types.Hash256 {
 	buf := make([]byte, 1+32+8+1)
